@@ -75,6 +75,21 @@ def gen_envdec(rng, idx, big=False):
     """Same as env but on a decimal time grid (1 tick = 0.1): implementation only (float rounding
     is outside the model); judged by the order/clock monitors."""
     L = gen_env(rng, idx, big)
+    if rng.random() < 0.35:
+        # rounding probe: an event scheduled RELATIVELY from inside an event lands at t1/10 + d/10, which
+        # for many pairs is one ulp above (t1+d)/10; from inside it, the absolute time (t1+d)/10 is
+        # requested: it lies before the clock by one ulp and must be rejected (or, if accepted by a
+        # tolerant guard, makes the clock step back)
+        nscripts = 1 + max([int(l[1]) for l in L if l[0] == 'script'] + [-1])
+        pairs = [(a, b) for a in range(1, 12) for b in range(1, 12) if a / 10 + b / 10 > (a + b) / 10]
+        t1, d = rng.choice(pairs)
+        k0, k1, k2 = nscripts, nscripts + 1, nscripts + 2
+        probe = [['script', str(k0), 'schedrel', str(d), '-2', str(k1), str(pick_prio(rng))],
+                 ['script', str(k1), 'sched', str(t1 + d), '-3', str(k2), str(pick_prio(rng))],
+                 ['script', str(k2), 'schedrel', '1', '-3', str(k2 + 1), str(pick_prio(rng))],
+                 ['ext', 'sched', str(t1), '-2', str(k0), str(pick_prio(rng))]]
+        i = next(j for j, l in enumerate(L) if l[0] in ('ext', 'step', 'run'))
+        L = L[:i] + probe + L[i:]
     return [L[0], ['tick', '10']] + L[1:]
 
 
@@ -134,7 +149,8 @@ def gen_rm(rng, idx, big=False, prestart=True):
         if c < 0.63:
             return ['release', str(h)]
         if c < 0.73:
-            return ['release', str(h), _req(rng, rids)]
+            # partial release; now and then with an explicitly EMPTY request (releases nothing)
+            return ['release', str(h), _req(rng, rids) if rng.random() < 0.8 else '-']
         if c < 0.80:
             return ['merge', str(h), str(rng.randrange(nh))]
         kk = rng.randrange((k if k is not None else -1) + 1, nscripts + 1)
@@ -650,6 +666,35 @@ def gen_sysm(rng, idx, big=False):
 FAMILIES['sysm'] = gen_sysm
 
 
+def gen_sysi(rng, idx, big=False):
+    """Implementation only: assets that construct further assets WHILE the first simulate call is
+    initialising the registered assets (and again between runs); every asset must end up initialised
+    exactly once."""
+    L = [['scenario', str(idx)], ['S', 'new']]
+    classes = ['handler', 'processor', 'sink', 'buffer', 'source', 'maint']
+    for _ in range(rng.randint(1, 5)):
+        if rng.random() < 0.5:
+            L.append(['S', 'asset', 'maker', str(rng.randint(1, 4)), str(rng.choice([1, 1, 2, 3]))])
+        else:
+            L.append(['S', 'asset', rng.choice(classes), str(rng.randrange(1, 4))])
+    L.append(['S', 'simulate', '0'])
+    L.append(['S', 'counts'])
+    for _ in range(rng.randint(0, 3)):
+        if rng.random() < 0.5:
+            L.append(['S', 'asset', 'maker', str(rng.randint(1, 3)), str(rng.choice([1, 2]))])
+        else:
+            L.append(['S', 'asset', rng.choice(classes), str(rng.randrange(1, 4))])
+        if rng.random() < 0.5:
+            L.append(['S', 'simulate', '0'])
+    L.append(['S', 'simulate', '0'])
+    L.append(['S', 'counts'])
+    L.append(['end'])
+    return L
+
+
+FAMILIES['sysi'] = gen_sysi
+
+
 # ------------------------------------------------------------------- targeted floor sub-families
 def _hdr(rng, idx):
     L = [['scenario', str(idx)], ['seed', str(rng.randrange(1000)), str(rng.choice(WMODS))]]
@@ -940,8 +985,78 @@ def gen_floor_procfirst(rng, idx, big=False):
     return L
 
 
+def gen_floor_late(rng, idx, big=False):
+    """Late machines: processors (and their sink) are constructed while the simulation is running
+    (between two runs, at a clock value > 0), then shut down / restored / failed / maintained; their
+    uptime and utilisation start at the moment of creation."""
+    L = _hdr(rng, idx)
+    L.append(['asset', 'dev', 'source', f'cyc={rng.choice([2, 4, 8])}', f'budget={rng.choice(["inf", "6", "12"])}', 'pval=0'])
+    ndev = 1
+    prev = 0
+    if rng.random() < 0.4:
+        L.append(['asset', 'dev', 'buffer', 'up=0', f'cap={rng.choice(["inf", "2", "4"])}', 'delay=0'])
+        ndev, prev = 2, 1
+    t0 = rng.choice([3, 5, 8, 13, 20])
+    L.append(['run', str(t0)])
+    procs = []
+    for _ in range(rng.choice([1, 1, 2])):
+        L.append(['ext', 'create', 'dev', 'processor', f'up={prev}', f'cyc={rng.choice([4, 8, 12, 20])}', 'nshut=1', 'nrest=1'])
+        procs.append(ndev)
+        prev = ndev
+        ndev += 1
+        if rng.random() < 0.3:
+            L.append(['run', str(rng.choice([2, 7]))])
+    L.append(['ext', 'create', 'dev', 'sink', f'up={prev}', f'cyc={rng.choice([0, 0, 6])}', 'collect=0'])
+    sched = []
+    t = t0 + rng.choice([10, 12, 16])
+    for _ in range(rng.randint(1, 5)):
+        d = rng.choice(procs)
+        c = rng.random()
+        if c < 0.5:
+            dur = rng.choice([2, 4, 6, 10])
+            sched.append((t, ['shutdown', str(d)]))
+            sched.append((t + dur, ['restore', str(d)]))
+            t += dur + rng.choice([1, 4, 9])
+        else:
+            sched.append((t, ['schedfailrel', str(d), str(rng.choice([0, 1, 3]))]))
+            sched.append((t + rng.choice([4, 6, 11]), ['restore', str(d)]))
+            t += rng.choice([12, 15])
+    _sched_ops(L, rng, sched)
+    L.append(['run', str(rng.choice([64, 96]))])
+    L.append(['end'])
+    return L
+
+
+def gen_floor_reentrant(rng, idx, big=False):
+    """Implementation only (the model has no re-entrant callbacks): a machine whose first shutdown
+    callback repairs it at once (`restore_functionality()` called from inside the failure), hit by
+    failures in mid-cycle; judged by the state-machine / accounting / flow monitors."""
+    L = _hdr(rng, idx)
+    L.append(['asset', 'dev', 'source', f'cyc={rng.choice([2, 4, 8])}', f'budget={rng.choice(["inf", "8", "12"])}', 'pval=0'])
+    n = rng.choice([1, 1, 2])
+    procs = []
+    prev = 0
+    for j in range(n):
+        L.append(['asset', 'dev', 'processor', f'up={prev}', f'cyc={rng.choice([6, 10, 12, 20])}', 'nshut=1', 'nrest=1',
+                  f'shutrestore={rng.choice([1, 1, 0]) if j else 1}'])
+        procs.append(j + 1)
+        prev = j + 1
+    L.append(['asset', 'dev', 'sink', f'up={prev}', f'cyc={rng.choice([0, 0, 4])}', 'collect=0'])
+    sched = []
+    t = rng.choice([3, 5, 9])
+    for _ in range(rng.randint(1, 5)):
+        d = rng.choice(procs)
+        sched.append((t, ['schedfailrel', str(d), str(rng.choice([0, 1, 2, 5]))]))
+        t += rng.choice([7, 11, 17, 23])
+    _sched_ops(L, rng, sched)
+    L.append(['run', str(rng.choice([64, 96, 128]))])
+    L.append(['end'])
+    return L
+
+
 FAMILIES.update({'floorpf': gen_floor_procfirst, 'floorm': gen_floor_maint, 'floorb': gen_floor_batch, 'floorg': gen_floor_groups,
-                 'floorp': gen_floor_pools, 'floors': gen_floor_special})
+                 'floorp': gen_floor_pools, 'floors': gen_floor_special, 'floorl': gen_floor_late,
+                 'floorr': gen_floor_reentrant})
 
 
 # ------------------------------------------------------------------------ exhaustive enumerations
@@ -964,7 +1079,7 @@ RMX_SCRIPTS = [['script', '0', 'reserve', '1', '0:1'], ['script', '1', 'release'
 RMX_ALPHABET = [
     ['ext', 'addres', '0', '2'], ['ext', 'addres', '0', '-1'], ['ext', 'addres', '1', '1'], ['ext', 'addres', '7', '-1'],
     ['ext', 'reserve', '0', '0:1;1:1'], ['ext', 'reserve', '1', '0:2'], ['ext', 'reserve', '0', '0:1;1:-1'],
-    ['ext', 'release', '0'], ['ext', 'release', '0', '0:1'], ['ext', 'release', '1', '5:0;0:1'], ['ext', 'merge', '0', '1'],
+    ['ext', 'release', '0'], ['ext', 'release', '0', '0:1'], ['ext', 'release', '0', '-'], ['ext', 'release', '1', '5:0;0:1'], ['ext', 'merge', '0', '1'],
     ['ext', 'register', '0', '0:1'], ['ext', 'register', '1', '1:1'], ['run', '0'], ['run', '4'],
 ]
 
